@@ -722,6 +722,15 @@ func (ce *callEngine) callNativeFunc(ctx context.Context, m *wasm.ModuleInstance
 			if err := m.FailIfClosed(); err != nil {
 				panic(err)
 			}
+			// m is the module of the calling function, which differs from the
+			// module this call was made on once the call chain has crossed into
+			// an imported module and called on from there. Cancellation closes
+			// the latter, so it must be checked as well.
+			if root := ce.f.moduleInstance; root != m {
+				if err := root.FailIfClosed(); err != nil {
+					panic(err)
+				}
+			}
 			frame.pc++
 		case operationKindUnreachable:
 			panic(wasmruntime.ErrRuntimeUnreachable)
